@@ -5,6 +5,6 @@ set -e
 cd /verif
 (cd scen && go build ./... )
 ./bin/mcgen -src /repo -out build/gen/mpb >/dev/null
-./bin/mcgen -src scen -out build/gen/scen -replace "github.com/vbauerster/mpb/v8=>/verif/build/gen/mpb" >/dev/null
+./bin/mcgen -nofuel -src scen -out build/gen/scen -replace "github.com/vbauerster/mpb/v8=>/verif/build/gen/mpb" >/dev/null
 (cd mc && go build -o /verif/build/mc-dev .)
 (cd pristine && go build -o /verif/build/pristine-dev .)
